@@ -16,6 +16,29 @@ RULE = ("generated closed programs x 4 variants (wrap top-level code in a functi
         "matrix inside and outside functions; non-trivial = distinct (program, variant) pair compared")
 
 
+def in_string(src, pos):
+    """is position `pos` of the program text inside a string literal (escapes `\\"` and `\\\\` respected) or a comment?"""
+    i, n = 0, len(src)
+    while i < n and i <= pos:
+        c = src[i]
+        if c == '"':
+            j = i + 1
+            while j < n and src[j] != '"':
+                j += 2 if src[j] == "\\" else 1
+            if i < pos <= j:
+                return True
+            i = j + 1
+        elif c == "/" and i + 1 < n and src[i + 1] == "/":
+            j = src.find("\n", i)
+            j = n if j < 0 else j
+            if i <= pos < j:
+                return True
+            i = j
+        else:
+            i += 1
+    return False
+
+
 def closed_program(rng):
     """function-free program over globals; ends with an expression listing every variable"""
     g = gen.Gen(rng, size=rng.range(6, 30))
@@ -42,7 +65,7 @@ def run(res, tier, rng, table_diffs=()):
         meta.append(("wrap", orig, wrapped))
         # (2) replace one integer literal by a fresh variable holding it
         lits = [m for m in re.finditer(r"(?<![\w.\"])(\d+)(?![\w.\"])", orig)]
-        lits = [m for m in lits if orig.count('"', 0, m.start()) % 2 == 0]
+        lits = [m for m in lits if not in_string(orig, m.start())]
         if lits:
             m = rng.pick(lits)
             var = "lit_%s" % m.group(1)
